@@ -302,7 +302,7 @@ def lst(xs):
 
 
 def run(ctx):
-    gen(ctx)
+    ctx.guard("regenerate", gen, ctx)
     ok = ctx.lean_build(["HitenModel.Props.C16"])
     if ok:
         ctx.lean_audit(["HitenModel.Props.C16"], ["HitenModel.Props.C16", "HitenModel.Gen.C16"])
